@@ -28,6 +28,8 @@ const POOL: &[&str] = &[
     // token-less rules (every token is a single character): all land in the wildcard bucket, so
     // rules with equal masks fuse; the texts contain one another away from the anchor
     "/a|", "/a.b|", ".b|", "/a", "/a.b", "@@/a|", "@@/a.b|", "/a*b|", "/a*b.c|",
+    // same bucket, masks that differ in exactly one bit the existing pairs do not cover
+    "advice$script,document", "adv$document", "adv$1p", "advert$~script", "adv$xhr", "advert$websocket", "advice$font,script",
 ];
 
 fn requests() -> Vec<Req> {
